@@ -24,8 +24,9 @@ ASSUMPTIONS = [
     'Keyword subtree for keyword_case; exactly Name or String.Symbol not '
     'starting with a double quote for identifier_case; String.Single for '
     'truncation; Comment subtree minus the Hint types for strip_comments',
-    'literals containing a doubled quote are a labelled class (known '
-    'finding D10: the cut can fall inside the doubled quote)',
+    'literals containing a doubled quote or a backslash are a labelled '
+    'class (known finding D10: the cut can fall inside the doubled quote or '
+    'directly behind a backslash, which then escapes the closing quote)',
 ]
 
 
@@ -69,7 +70,7 @@ def expected_stream(src, opts):
             n = opts['truncate_strings']
             inner = v[1:-1]
             if len(inner) > n:
-                if "''" in v[1:-1] or v[:2] == "''":
+                if "''" in v[1:-1] or v[:2] == "''" or '\\' in v:
                     d10 = True
                 marker = opts.get('truncate_char', '[...]')
                 v = "'" + inner[:n] + marker + "'"
